@@ -33,7 +33,7 @@ fn pol(p: u8) -> BackpressurePolicy {
 /// item encoding used by the model: 0 = Exit marker, v>0 = Action(v)
 fn mk(v: u8) -> ActionOp<u8> {
     if v == 0 {
-        ActionOp::Exit(rt::instant_now())
+        ActionOp::Exit(rt::now_model())
     } else {
         ActionOp::Action(v)
     }
